@@ -26,6 +26,16 @@ Part 3: `Palette` classes (static table `ClassDef`), registration of class defau
 `PARENT_PALETTES`, palette creation through the metaclass (`_get_existing_palette`,
 `_prepare_local_colors`, `_store_palette_in_cache`); a palette is the snapshot of its accessors' prefixes.
 
+Part 4: histories (`Op`, `stepOp`, `run`).  Part 5: the declarative reading of the statement (`Resolves`,
+`resolveSpec`, `Acyclic`, `SpecColor`, first-registration-wins on description strings) — specification, not
+executed by the driver.  Part 6: the configuration as the global one and synced palettes (`GWorld`,
+`addWith`, `registerClassG`, `syncList`, `stepG`, `runAll`); the driver executes `newConf` and `stepG`
+(`C14.global_off_same`: without `setGlobal`/`syn`/`sget` this is `run`).
+
+Not modelled: a second configuration (it only appears as "another global configuration" before `setGlobal`,
+whose colours are never read), `GlobalPalette`, `CompoundPalette` sub-palettes, the state left behind by a
+registration that raised (the protocol stops using the configuration then).
+
 A formatter is represented by its prefix: `ColorFmt.__call__` renders `prefix ++ text ++ suffix` and the
 suffix is `ESC[0m` exactly when the prefix is not empty (checked by the adapter on every reply).
 -/
@@ -516,6 +526,10 @@ def registerClass (classes : List ClassDef) : Nat → Conf → Nat → Except Er
         | none => .ok c1
         | some cfg => registerComponent c1 cfg (.cls k)
 
+/-- enough fuel for every nesting of parent registrations inside re-syncs (each nesting level registers
+at least one more class); running out of it is reported, never hidden -/
+def gFuel (classes : List ClassDef) : Nat := (classes.length + 1) * (classes.length + 1) + 1
+
 def snapOf (c : Conf) (accessors : List (Str × Id)) : Snap :=
   accessors.map fun (a, synt) => (a, synt, getColor c synt)
 
@@ -541,7 +555,7 @@ def getPalette (classes : List ClassDef) (w : World) (k : Nat) (noColor : Bool) 
   match classes[k]? with
   | none => .error .keyError
   | some cd =>
-    let fuel := classes.length + 1
+    let fuel := gFuel classes
     if noColor then
       -- `_get_existing_palette` registers the class even for a no-colour palette
       match registerClass classes fuel w.conf k with
@@ -662,10 +676,6 @@ def registerClassG (classes : List ClassDef) : Nat → GWorld → Nat → Except
           regCompWith (fun g' => syncList classes (registerClassG classes fuel) g' (g'.synced.map (·.1)))
             g1 cfg (.cls k)
 
-/-- enough fuel for every nesting of parent registrations inside re-syncs (each nesting level registers
-at least one more class); running out of it is reported, never hidden -/
-def gFuel (classes : List ClassDef) : Nat := (classes.length + 1) * (classes.length + 1) + 1
-
 /-- `set_global_colors_config(conf)`'s loop over the synced palettes -/
 def syncTop (classes : List ClassDef) (g : GWorld) : Except Err GWorld :=
   syncList classes (registerClassG classes (gFuel classes)) g (g.synced.map (·.1))
@@ -745,6 +755,13 @@ def runG (classes : List ClassDef) : GWorld → List GOp → Except Err GWorld
     match stepG classes g op with
     | .ok (g', _) => runG classes g' ops
     | .error x => .error x
+
+/-- a whole case of the protocol: the constructor, then operations on the configuration and on the module
+state (`run` of part 4 is the special case without `setGlobal`/`syn`/`sget`: `C14.global_off_same`) -/
+def runAll (classes : List ClassDef) (noColor : Bool) (cfg : Cfg) (ops : List GOp) : Except Err GWorld :=
+  match newConf noColor cfg with
+  | .ok c => runG classes ⟨⟨c, []⟩, false, []⟩ ops
+  | .error x => .error x
 
 /-! ## Part 5: the declarative reading of the statement -/
 
